@@ -497,7 +497,7 @@ size_t rtosc_print_arg_val(const rtosc_arg_val_t *arg,
 
                     // append float
                     char fmtstr[8];
-                    asnprintf(fmtstr, 5, "%%.%df", prec);
+                    asnprintf(fmtstr, 6, "%%#.%df", prec); // '#': keep the point
                     int lastwrt = wrt;
                     wrt += asnprintf(buffer + wrt, bs - wrt,
                                      fmtstr, flt);
@@ -1268,8 +1268,10 @@ const char* rtosc_skip_next_printed_arg(const char* src, int* skipped,
             {
                 if(skip_fmt(&src, " %*2d:%*1d%*1d%n"))
                 if(skip_fmt(&src, ":%*1d%*1d%n"))
-                if(skip_fmt(&src, ".%*d%n"))
+                if(*src == '.')
                 {
+                    ++src;
+                    skip_while(&src, isdigit);
                     if(skip_fmt(&src, " ( ... + 0x%n"))
                     {
                         skip_fmt(&src, "%*x.%n");
@@ -1812,20 +1814,24 @@ size_t rtosc_scan_arg_val(const char* src,
 
                 uint64_t secfracs;
 
-                // lossless format is appended in parentheses?
-                //  => take it directly from there
-                if(skip_fmt(&src, "%*f (%n"))
+                // fractional part of the seconds: ".ddd" (just "." with
+                // precision 0), optionally followed by the exact value
+                // as printed in lossless mode: " (...+0x1.b9b4p-6s)"
+                if(*src == '.')
                 {
-                    sscanf(src, " ... + 0x%8"PRIx64"p-32 s )%n",
-                           &secfracs, &rd);
-                    src += rd;
-                }
-                // float number, but not lossless?
-                //  => convert it to fractions of seconds
-                else if(*src == '.')
-                {
+                    rd = 0;
+                    secfracsf = 0.0f;
                     sscanf(src, "%f%n", &secfracsf, &rd);
-                    src += rd;
+                    src += rd ? rd : 1;
+
+                    float exact;
+                    rd = 0;
+                    sscanf(src, " ( ... + %f s )%n", &exact, &rd);
+                    if(rd)
+                    {
+                        secfracsf = exact;
+                        src += rd;
+                    }
 
                     secfracs = rtosc_float2secfracs(secfracsf);
                 }
